@@ -574,6 +574,28 @@ func (p c13) Run(w *mon.Worker, idx int) mon.Result {
 			}
 		}
 	}
+	// route 2c: two steps in one evaluation. Every alias is encoded once (which resolves it), THEN the anchored scalars
+	// are given a new value, then the document is exploded: the aliases resolve to what their anchors hold at that
+	// moment, exactly as without the encoding step in front
+	if idx%3 == 1 && g.aliases >= 2 {
+		edit := `((.. | select(anchor != "" and kind == "scalar")) = "edited") | explode(.)`
+		if idx%2 == 0 {
+			edit = `((.. | select(anchor != "" and kind == "map") | .[] | select(kind == "scalar")) = "edited") | explode(.)`
+		}
+		pre := `([.. | select(alias != "") | to_json] | length) as $n | `
+		o1, e1, p1 := yqx.Eval(edit, text, "yaml", "json")
+		o2, e2, p2 := yqx.Eval(pre+edit, text, "yaml", "json")
+		res.Evals += 2
+		if p1 != nil || p2 != nil {
+			return fail("panic in the two-step route: %v %v\n%s", p1, p2, text)
+		}
+		if (e1 == nil) != (e2 == nil) || (e1 == nil && o1 != o2) {
+			return fail("resolving the aliases once (to_json) before the anchored values are edited changes what explode gives afterwards\n `%s`: %s %v\n `%s`: %s %v\n%s", edit, clipStr(o1, 400), e1, pre+edit, clipStr(o2, 400), e2, text)
+		}
+		if e1 == nil {
+			res.Tags = append(res.Tags, "two_step")
+		}
+	}
 	// route 3: reading every leaf path of the un-exploded document
 	var leaves [][]any
 	want.Walk(nil, func(pth []any, n *ref.V) {
